@@ -261,6 +261,19 @@ def make_traced_class():
             self.freeze_data()
             self._tr.emit("freeze", snapshot("ok", self, []))
 
+        def h_load(self, sim_data, iteration):
+            """the REAL load_data(sim_data, iteration); the trace lines are those of the documented effect
+            (one assignment per key of sim_data, then freeze_data): anything else load_data does to the
+            instance shows up as a difference between the real snapshot and the model's"""
+            for k in sim_data:
+                self.h_ksz(k)
+            self.load_data(sim_data, iteration)
+            for k in sim_data:
+                self._tr.prov[k] = (("in", k, self._tr.next_id), frozenset())
+                self._tr.emit("assign %s %s" % (k, self._val_words(self.data[k])) if k in self.data else "assign %s 0 0 0" % k,
+                              None)
+            self._tr.emit("freeze", snapshot("ok", self, []))
+
         def h_set(self, what, value):
             if what == "period":
                 self.clear_cache_every_nbr_calc = value
@@ -569,10 +582,12 @@ def execute(cfg, ops, on_value=None, watch_values=False):
                     rel.h_assign(op[1], acc, frozen=True)
                     mon.freeze([op[1]])
                 elif op[0] == "load":
-                    # load_data(sim_data, it): assignments, then freeze_data()
-                    for k in op[1]:
-                        rel.h_assign(k, fields.get(k, fields["alpha"]) * 1.5)
-                    rel.h_freeze()
+                    # the real load_data(sim_data, it) on a two-iteration time series; the iteration alternates
+                    # between successive loads of one history (0, 1, 0, ...)
+                    nload = sum(1 for o in ops[:i] if o[0] == "load")
+                    sim_data = {k: [fields.get(k, fields["alpha"]) * 1.5, fields.get(k, fields["alpha"]) * 2.5]
+                                for k in op[1]}
+                    rel.h_load(sim_data, nload % 2)
                     mon.freeze(op[1])
                     mon.freeze_all()
             except RecursionError as ex:
@@ -643,7 +658,7 @@ def correspondence(ctx, pid, nhist, nreq):
         bad.append("driver printed %d lines for %d events" % (len(outs), len(expect)))
     seen = set()
     for i, (o, e) in enumerate(zip(outs, expect)):
-        if o != e and owner[i] not in seen:
+        if e is not None and o != e and owner[i] not in seen:
             seen.add(owner[i])
             bad.append("history %d event %d `%s`: real %s | model %s" % (owner[i], i, lines[i], e[:400], o[:400]))
     ctx.cov["%s_histories" % pid] = stats["histories"]
